@@ -14,6 +14,7 @@
 //   I5 an ID whose NEW_CONNECTION_ID is still to be (re)sent or in flight
 //      (PendingIssuance / PendingReissue / PendingAcknowledgement) has seq >= retire_prior_to
 //      (= a frame issuing it never asks to retire beyond itself, RFC 9000 19.15)
+//      and is not the handshake ID (sequence number 0 starts Active)
 //   I6 IDs pairwise distinct
 //   I7 retirement times do not decrease with the sequence number among the IDs issued by
 //      register_connection_id (seq >= 1): if a later ID has a retirement time, every earlier one has
@@ -66,13 +67,20 @@ fn t_us(us: u64) -> Timestamp {
 fn now() -> Timestamp {
     t_us(NOW_US)
 }
-/// grid point -> Timestamp (an if-then-else over constants)
-fn at(g: u8) -> Timestamp {
-    match g {
-        0 => t_us(GRID_US[0]),
-        1 => t_us(GRID_US[1]),
-        2 => t_us(GRID_US[2]),
-        _ => t_us(GRID_US[3]),
+/// grid point -> Timestamp (an if-then-else over four values computed once per harness)
+#[derive(Clone, Copy)]
+struct Grid([Timestamp; 4]);
+impl Grid {
+    fn new() -> Grid {
+        Grid([t_us(GRID_US[0]), t_us(GRID_US[1]), t_us(GRID_US[2]), t_us(GRID_US[3])])
+    }
+    fn at(&self, g: u8) -> Timestamp {
+        match g {
+            0 => self.0[0],
+            1 => self.0[1],
+            2 => self.0[2],
+            _ => self.0[3],
+        }
     }
 }
 fn any_grid() -> u8 {
@@ -103,16 +111,18 @@ struct E {
     id: connection::LocalId,
     seq: u32,
     rt: Option<u8>,
+    rt_ts: Option<Timestamp>,
     st: u8,
     pnv: u8,
     tm: Option<u8>,
+    tm_ts: Option<Timestamp>,
     tok: [u8; 16],
 }
 
 impl E {
     /// `idl`: concrete ID length (a symbolic length makes every copy/compare of the ID a
     /// symbolic-size memcpy/memcmp)
-    fn any(idl: usize) -> E {
+    fn any(idl: usize, grid: &Grid) -> E {
         // (arrays are drawn through integers: no loops, the unwind bound stays small)
         let idw: u64 = kani::any();
         let w = idw.to_le_bytes();
@@ -134,9 +144,11 @@ impl E {
             id: connection::LocalId::try_from_bytes(&idb[..idl]).unwrap(),
             seq,
             rt: if has_rt { Some(rt) } else { None },
+            rt_ts: if has_rt { Some(grid.at(rt)) } else { None },
             st,
             pnv,
             tm: if has_tm { Some(tm) } else { None },
+            tm_ts: if has_tm { Some(grid.at(tm)) } else { None },
             tok,
         }
     }
@@ -149,15 +161,15 @@ impl E {
             S_REISSUE => PendingReissue,
             S_ACK => PendingAcknowledgement(pn(self.pnv)),
             S_ACTIVE => Active,
-            S_RETIRING => PendingRetirementConfirmation(self.tm.map(at)),
-            _ => PendingRemoval(at(self.tm.unwrap())),
+            S_RETIRING => PendingRetirementConfirmation(self.tm_ts),
+            _ => PendingRemoval(self.tm_ts.unwrap()),
         }
     }
     fn info(&self) -> LocalIdInfo {
         LocalIdInfo {
             id: self.id(),
             sequence_number: self.seq,
-            retirement_time: self.rt.map(at),
+            retirement_time: self.rt_ts,
             stateless_reset_token: stateless_reset::Token::from(self.tok),
             status: self.status(),
         }
@@ -217,7 +229,7 @@ impl Pre {
                 ok &= e.seq < self.rpt;
             }
             if e.st <= S_ACK {
-                ok &= e.seq >= self.rpt;
+                ok &= e.seq >= self.rpt && e.seq != 0;
             }
             let mut j = i + 1;
             while j < self.n {
@@ -330,11 +342,12 @@ fn new_registry(rotate: bool) -> LocalIdRegistry {
 }
 
 fn any_registry(n: usize) -> (LocalIdRegistry, Pre) {
-    let first = E::any(ID_LEN[0]);
+    let grid = Grid::new();
+    let first = E::any(ID_LEN[0], &grid);
     let mut es = [first; MAXN];
     let mut i = 1;
     while i < n {
-        es[i] = E::any(ID_LEN[i]);
+        es[i] = E::any(ID_LEN[i], &grid);
         i += 1;
     }
     let next: u32 = kani::any();
@@ -347,12 +360,16 @@ fn any_registry(n: usize) -> (LocalIdRegistry, Pre) {
 
     let mut reg = new_registry(rotate);
 
-    reg.registered_ids[0] = pre.e[0].info();
-    let mut i = 1;
-    while i < n {
-        reg.registered_ids.push(pre.e[i].info());
-        i += 1;
-    }
+    // the SmallVec is built in one piece with a concrete length: building it with push() leaves CBMC
+    // with a symbolic container shape (measured: 39 M clauses for on_timeout on 2 entries vs 2 M on 1)
+    let buf: [LocalIdInfo; 5] = [
+        pre.e[0].info(),
+        pre.e[if n > 1 { 1 } else { 0 }].info(),
+        pre.e[if n > 2 { 2 } else { 0 }].info(),
+        pre.e[if n > 3 { 3 } else { 0 }].info(),
+        pre.e[0].info(),
+    ];
+    core::mem::forget(core::mem::replace(&mut reg.registered_ids, SmallVec::from_buf_and_len(buf, n)));
     reg.next_sequence_number = next;
     reg.retire_prior_to = rpt;
     reg.active_connection_id_limit = limit;
@@ -395,7 +412,8 @@ fn assert_inv(reg: &LocalIdRegistry) {
         match info.status {
             PendingRetirementConfirmation(_) => assert!(info.sequence_number < reg.retire_prior_to),
             PendingIssuance | PendingReissue | PendingAcknowledgement(_) => {
-                assert!(info.sequence_number >= reg.retire_prior_to)
+                assert!(info.sequence_number >= reg.retire_prior_to);
+                assert!(info.sequence_number != 0);
             }
             _ => {}
         }
@@ -407,7 +425,7 @@ fn assert_inv(reg: &LocalIdRegistry) {
 }
 
 fn unchanged(info: &LocalIdInfo, e: &E) -> bool {
-    info.sequence_number == e.seq && info.id == e.id() && info.status == e.status() && info.retirement_time == e.rt.map(at)
+    info.sequence_number == e.seq && info.id == e.id() && info.status == e.status() && info.retirement_time == e.rt_ts
 }
 
 // ================================================================ C13-O2b: on_timeout
@@ -520,9 +538,8 @@ fn verif_local_id_timeout_n3() {
 #[cfg_attr(kani, kani::stub(LocalIdMap::remove, stub_remove))]
 #[cfg_attr(kani, kani::stub(LocalIdRegistry::unregister_expired_ids, stub_unregister_expired_ids))]
 fn verif_probe_registry_new() {
-    let (mut reg, pre) = any_registry(3);
-    reg.on_timeout(now());
-    kani::cover!(reg.registered_ids.len() == 3 && pre.rpt < reg.retire_prior_to, "ran");
+    let (reg, pre) = any_registry(2);
+    kani::cover!(reg.registered_ids.len() == 2 && pre.rpt > 0, "ran");
     core::mem::forget(reg);
 }
 
@@ -532,7 +549,10 @@ fn verif_probe_registry_new() {
 #[cfg_attr(kani, kani::stub(LocalIdMap::remove, stub_remove))]
 #[cfg_attr(kani, kani::stub(LocalIdRegistry::unregister_expired_ids, stub_unregister_expired_ids))]
 fn verif_probe_b() {
-    timeout_body(2);
+    let (reg, pre) = any_registry(2);
+    let t = reg.timer();
+    kani::cover!(reg.registered_ids.len() == 2 && pre.rpt > 0 && t.is_armed(), "ran");
+    core::mem::forget(reg);
 }
 
 #[cfg_attr(kani, kani::proof)]
@@ -541,10 +561,9 @@ fn verif_probe_b() {
 #[cfg_attr(kani, kani::stub(LocalIdMap::remove, stub_remove))]
 #[cfg_attr(kani, kani::stub(LocalIdRegistry::unregister_expired_ids, stub_unregister_expired_ids))]
 fn verif_probe_c() {
-    let (mut reg, pre) = any_registry(3);
-    kani::assume(!pre.warm);
-    reg.on_timeout(now());
-    kani::cover!(reg.registered_ids.len() == 3 && pre.rpt < reg.retire_prior_to, "ran");
+    let (reg, pre) = any_registry(2);
+    let t = reg.active_id_count.get(&reg.registered_ids);
+    kani::cover!(reg.registered_ids.len() == 2 && pre.rpt > 0 && t == 1, "ran");
     core::mem::forget(reg);
 }
 
